@@ -166,9 +166,8 @@ class RationalPolynomial:
 
     def __init__(self, numer, denom=None):
         if isinstance(numer, self.__class__):
-            numer = numer.numer
-            denom = numer.denom
-        elif isinstance(numer, (list, tuple)):
+            numer, denom = numer.numer, numer.denom
+        elif isinstance(numer, (list, tuple, int, float)):
             numer = Polynomial(numer)
         if denom is None:
             denom = Polynomial([[1]])
